@@ -62,6 +62,7 @@ static Verdict d1Rle(const G &g) {
   bool ok = ref::hybrid_decode(out.b.data, out.b.size, g.w, v.size(), got, err, true);
   PBT_CHECK(vd, ok, "spec decoder rejects carquet's hybrid stream: %s", err.c_str());
   for (size_t i = 0; i < v.size(); i++) PBT_CHECK(vd, got[i] == v[i], "value %zu: spec decoder reads %u, encoded %u", i, got[i], v[i]);
+  { std::string ap = appendCheck(out.bytes(), [&](carquet_buffer_t *b) { return carquet_rle_encode_all(v.data(), (int64_t)v.size(), g.w, b); }); PBT_CHECK(vd, ap.empty(), "RLE hybrid: %s", ap.c_str()); }
   // levels entry point emits the same format
   if (g.w <= 15) {
     std::vector<int16_t> lv(g.ints.begin(), g.ints.end());
@@ -97,11 +98,12 @@ static Verdict d1Bitpack(const G &g) {
   return vd;
 }
 static rc::Gen<std::vector<int64_t>> deltaVals(bool is32) {
-  auto len = rc::gen::weightedOneOf<int>({{3, rc::gen::element(1, 2, 32, 33, 34, 128, 129, 130, 256, 257, 258)}, {4, irange(1, 140)}, {1, irange(141, 700)}});
+  auto len = rc::gen::weightedOneOf<int>({{3, rc::gen::element(1, 2, 32, 33, 34, 128, 129, 130, 256, 257, 258, 384, 385, 513, 641, 1025)}, {4, irange(1, 140)}, {1, irange(141, 700)}});
   return rc::gen::mapcat(len, [is32](int n) {
     auto base = is32 ? rc::gen::map(gen::int32Gen(), [](int32_t x) { return (int64_t)x; }) : gen::int64Gen();
     auto arb = rc::gen::container<std::vector<int64_t>>((size_t)n, base);
-    auto width = rc::gen::map(rc::gen::tuple(irange(0, is32 ? 31 : 63), base, rc::gen::container<std::vector<uint64_t>>((size_t)n, bits64())),
+    auto width = rc::gen::map(rc::gen::tuple(rc::gen::weightedOneOf<int>({{1, rc::gen::just(0)}, {7, irange(0, is32 ? 31 : 63)}}), base,   // width 0: constant values, the most compact stream
+                               rc::gen::container<std::vector<uint64_t>>((size_t)n, bits64())),
                               [is32](const std::tuple<int, int64_t, std::vector<uint64_t>> &p) {
                                 int w = std::get<0>(p);
                                 std::vector<int64_t> v; uint64_t x = (uint64_t)std::get<1>(p);
@@ -172,6 +174,8 @@ static Verdict d1Strings(const G &g, bool incremental) {
   PBT_CHECK(vd, ok, "spec decoder rejects carquet's stream: %s", err.c_str());
   PBT_CHECK(vd, got.size() == n && consumed == out.b.size, "spec decoder reads %zu values / %zu bytes; encoded %zu values / %zu bytes", got.size(), consumed, n, out.b.size);
   for (size_t i = 0; i < n; i++) PBT_CHECK(vd, got[i] == g.strs[i], "value %zu differs after spec decoding", i);
+  std::string ap = appendCheck(out.bytes(), [&](carquet_buffer_t *b) { return incremental ? carquet_delta_strings_encode(arr.data(), (int32_t)n, b) : carquet_delta_length_encode(arr.data(), (int32_t)n, b); });
+  PBT_CHECK(vd, ap.empty(), "%s: %s", incremental ? "DELTA_BYTE_ARRAY" : "DELTA_LENGTH_BYTE_ARRAY", ap.c_str());
   return vd;
 }
 static rc::Gen<G> genBss() {
